@@ -24,6 +24,11 @@ INITS = [
     {"name": "x-none-5", "x": None, "y": [3.0, 1.0, 4.0, 1.0, 5.0], "ctor": "arrays", "dtype": "float64"},
     {"name": "2d-array-views", "x": [0.0, 1.0, 2.0, 4.0, 5.0, 7.0], "y": [1.0, 2.0, 0.0, 3.0, 3.0, 1.0], "ctor": "2d", "dtype": "float64"},
     {"name": "dataframe", "x": [0.0, 0.5, 1.5, 2.0], "y": [2.0, 1.0, 4.0, 0.0], "ctor": "dataframe", "dtype": "float64"},
+    # abscissae whose spacing is one or two ulp of their magnitude (used only with operations that are exact there)
+    {"name": "ulp-spaced-2^52", "x": [float(2 ** 52 + k) for k in range(10)], "y": [float((3 * k) % 5) for k in range(10)], "ctor": "arrays", "dtype": "float64"},
+    # a missing last sample (NaN) that the first operation of the history truncates away
+    {"name": "nan-tail", "x": [0.0, 1.0, 2.0, 3.0, 4.0, 5.0], "y": [1.0, 3.0, 2.0, 5.0, 4.0, float("nan")], "ctor": "arrays", "dtype": "float64"},
+    {"name": "ulp-spaced-4e15", "x": [4e15 + 0.5 * k for k in range(12)], "y": [float((7 * k) % 4) for k in range(12)], "ctor": "arrays", "dtype": "float64"},
 ]
 
 DOMAIN_OPS = [
@@ -171,7 +176,8 @@ class Runner:
         if k == "normalize_x":
             return (k, (op[1], op[2]), {}) if L >= 2 else None
         if k == "normalize_y":
-            ok = all(max(p[1]) > min(p[1]) for p in (m.w, m.ref, m.orig))
+            ok = all(any(v != v for v in p[1]) or max(p[1]) > min(p[1]) for p in (m.w, m.ref, m.orig)) and \
+                not any(v != v for v in m.w[1] + m.ref[1])
             return (k, (op[1], op[2]), {}) if ok else None
         if k == "repeat":
             return (k, (op[1],), {}) if L >= 2 and L * op[1] <= LEN_CAP and len(m.ref[0]) >= 2 else None
@@ -201,9 +207,13 @@ class Runner:
                 return None
             return ("recreate_from_average", (n,), dict(rfa_class=RC.cls(st)))
         if k == "integral_match":
-            sel = RM.fixed_selection(fl(wx), fl(m.ref[0]), "search", "closest")
-            if sel[0] != "ok" or len(m.ref[0]) < 2:
+            if len(m.ref[0]) < 2 or L < 2:
                 return None
+            if not getattr(self, "any_match", False):
+                # C08 / C20: only where the matching itself is meaningful (distinct fixed points, interior samples)
+                sel = RM.fixed_selection(fl(wx), fl(m.ref[0]), "search", "closest")
+                if sel[0] != "ok":
+                    return None
             return (k, (), {"target_function_integral_method": op[1], "reference_function_integral_method": op[2]})
         if k == "interpolate_n":
             if L < 4:
